@@ -167,6 +167,8 @@ class Obligation:
                 self.solver, self.time_s, self.status = res.solver + "(pointwise)", res.time_s, "discharged"
                 return self.status
         fs = self.pc if self.goal is False else self.pc + [z3.Not(self.goal)]
+        if self.goal is not False and z3.is_false(z3.simplify(self.goal)):
+            fast = True      # a structural fact that is plainly false on this path: only the path's feasibility is in question
         if getattr(self, "strings_first", False):
             # pure string lemmas: cvc5's string solver first (z3's seq solver is unstable on these)
             r5 = smt._cvc5_check(smt.to_smt2(fs), timeout_ms)
